@@ -72,6 +72,7 @@ loadsize:装载字节数
 */
 void sha1hash::getHash(const u8_t *input, u32_t final_loadsize)
 {
+  WV_GHOST(WV_HLOG_FINAL(input, final_loadsize, this->_base.totalsize);)
   addtotal(final_loadsize);
   const u64_t bitlen = totalsize; // the message length, before the extra padding block is counted
   u8_t *temp = new u8_t[getblen()];
